@@ -132,6 +132,21 @@ def candidates(p: Procedure, rng: random.Random, configs=(), other_procs=(), lim
         fresh[0] += 1
         return "%s_%d" % (b, fresh[0])
 
+    # integer constants that occur in guards, assertions and bounds: operations whose side conditions depend on
+    # the context are sampled AT and AROUND these values (the boundary cases of the enclosing conditions)
+    consts = set()
+
+    def _collect(e):
+        if isinstance(e, LoopIR.Const) and isinstance(e.val, int) and not isinstance(e.val, bool):
+            consts.add(e.val)
+        for f in ("lhs", "rhs", "arg"):
+            if hasattr(e, f):
+                _collect(getattr(e, f))
+
+    for e in list(p._loopir_proc.preds) + [c.cond()._impl._node for c in st.ifs]:
+        _collect(e)
+    ctx_consts = sorted(c for k in consts for c in (k - 1, k, k + 1) if -1 <= c <= 9)
+
     add("simplify", "", lambda: S.simplify(p))
     if st.passes:
         add("delete_pass", "", lambda: S.delete_pass(p))
@@ -158,13 +173,13 @@ def candidates(p: Procedure, rng: random.Random, configs=(), other_procs=(), lim
             cuts += [hi, hi - 1, hi + 1]
         if lo is not None:
             cuts += [lo, lo + 1]
-        for c in pick(set(cuts), 2):
+        for c in pick(set(cuts), 2) + pick(ctx_consts, 2):
             add("cut_loop", "%s cut=%s" % (path_of(l), c), lambda l=l, c=c: S.cut_loop(p, l, c))
         if hi is None:
             add("cut_loop", "%s cut=hi-1" % path_of(l), lambda l=l: S.cut_loop(p, l, "%s - 1" % str(l.hi()._impl._node)))
-        for s in pick([0, 1, 2, 5, -1], 2):
+        for s in pick([0, 1, 2, 5, -1], 2) + pick(ctx_consts, 1):
             add("shift_loop", "%s lo=%s" % (path_of(l), s), lambda l=l, s=s: S.shift_loop(p, l, s))
-        for d in pick([1, 2, 3, 4], 2):
+        for d in pick([1, 2, 3, 4], 2) + pick([c for c in ctx_consts if c >= 2], 1):
             for tail in pick(["guard", "cut", "cut_and_guard"], 1):
                 add("divide_loop", "%s by=%d tail=%s" % (path_of(l), d, tail),
                     lambda l=l, d=d, tail=tail: S.divide_loop(p, l, d, [nm("io"), nm("ii")], tail=tail))
